@@ -13,7 +13,7 @@ import (
 
 func init() {
 	register(&Rule{ID: "R20", Name: "STICKY", Floor: 25,
-		Text: "each chainable QFrame/Grouper method, each FilterClause.filter, each Expression.execute, the three writers and Len are explored under the assumption that the incoming frame (or grouper) carries an error: branches on its Err resolve accordingly, frames returned by other such operations on an errored frame carry that error (greatest fixpoint over the operation set). On every path that remains feasible: no column kernel (Column.Filter/Apply1/Apply2/Aggregate/Subset/Rolling) is invoked, no user-supplied function value is called, and what is returned is errored (a frame/grouper carrying the incoming error - the frame itself, a copy whose Err is untouched, or one whose Err is set from the incoming Err, possibly wrapped by qerrors.Propagate, never a freshly constructed error; a non-nil error; Len = -1)",
+		Text: "each chainable QFrame/Grouper method, each FilterClause.filter, each Expression.execute, every exported method with an error result (the three writers, the typed view constructors) and Len are explored under the assumption that the incoming frame (or grouper) carries an error: branches on its Err resolve accordingly, frames returned by other such operations on an errored frame carry that error (greatest fixpoint over the operation set). On every path that remains feasible: no column kernel (Column.Filter/Apply1/Apply2/Aggregate/Subset/Rolling) is invoked, no user-supplied function value is called, and what is returned is errored (a frame/grouper carrying the incoming error - the frame itself, a copy whose Err is untouched, or one whose Err is set from the incoming Err, possibly wrapped by qerrors.Propagate, never a freshly constructed error; a non-nil error - so a failed frame hands out no view of its rows; Len = -1)",
 		Run:  runR20})
 }
 
@@ -55,8 +55,9 @@ func stickyEntries(p *Prog) []stickyEntry {
 			returnsFrame := res.Len() >= 1 && isFrameType(res.At(0).Type())
 			isWriter := name == "ToCSV" || name == "ToJSON" || name == "ToSQL"
 			helper := name == "apply0" || name == "apply1" || name == "apply2" || name == "filter"
+			returnsErr := res.Len() >= 1 && isErrorType(res.At(res.Len()-1).Type())
 			switch {
-			case exported && returnsFrame, isWriter, helper, name == "Len" && recv == "QFrame", name == "QFrames":
+			case exported && returnsFrame, isWriter, exported && returnsErr, helper, name == "Len" && recv == "QFrame", name == "QFrames":
 				out = append(out, stickyEntry{fn, 0})
 			}
 		case name == "filter" && fn.Signature.Params().Len() == 1 && isFrameType(fn.Signature.Params().At(0).Type()):
